@@ -61,6 +61,14 @@ def main(tier, replay=None):
             spd = b["spd"]
             spd = [bool(spd[str(a)]) for a in range(len(spd))] if isinstance(spd, dict) else [bool(v) for v in spd]
             traces.append(run_case(spd, rng, i + 1)); cases[i + 1] = dict(spd=spd)
+    if tier != "quick" and not replay:
+        # unbounded companion: Apalache discharges an inductive invariant of the ladder for every cap <= 64 and every success
+        # pattern (2^64 of them), plus a negative control; a failure here is a machinery error, never a VIOLATION
+        import subprocess
+        r = subprocess.run([common.SPECS + "/apalache/run.sh"], capture_output=True, text=True)
+        rep.coverage["apalache"] = [l for l in r.stdout.splitlines() if l.startswith("APALACHE")]
+        if r.returncode != 0:
+            rep.machinery("apalache inductive check failed: %s" % r.stdout[-400:])
     for c in ("result_is_first_spd", "requests_in_order", "request_count", "apply_solves"):
         rep.count_clause(c, len(traces))
     if traces:
